@@ -276,6 +276,9 @@ def r5(ctx):
                 if e.kind == "call" and e.name.endswith("::parse") and p.state.discr.get(e.result) == 1:
                     bad_parse = True
             if not (bad_utf8 or bad_parse):
+                decided = any(e.kind == "call" and e.name.endswith("from_utf8") for e in p.events) and any(e.kind == "call" and e.name.endswith("::parse") for e in p.events)
+                if not decided and not p.cut:
+                    rep.bad("%s:hit-answers-before-conversion" % nm, "a path of incr/decr on a present item returns %s without having decided whether the stored value is a decimal u64 (no UTF-8 check / u64 parse on the path): a non-numeric value is then not answered with 'non-numeric value' for the requests taking this path (e.g. a CAS test placed in front of the parser turns it into 'key exists')" % short(p.ret, 60), b.loc())
                 if err_name(p.ret) == "ArithOnNonNumeric":
                     rep.bad("%s:non-numeric-without-failed-conversion" % nm, "incr/decr answers 'non-numeric value' on a path where neither the UTF-8 check nor the u64 parse failed (an extra rejection in front of the parser: a value that IS a decimal u64 — e.g. zero-padded beyond 20 digits — is refused)", b.loc())
                 continue
